@@ -15,14 +15,17 @@ MCDesc ==
     [] DescName = "or"     -> [t |-> "or"]
     [] DescName = "map_mv" -> [t |-> "map", of |-> [t |-> "mv"]]
     [] DescName = "map_or" -> [t |-> "map", of |-> [t |-> "or"]]
+    [] DescName = "map_map_mv" -> [t |-> "map", of |-> [t |-> "map", of |-> [t |-> "mv"]]]
 
 View == coreView
 
 \* ---- scenario scripts (INIT ScriptInit) ------------------------------------------
 CONSTANT ScriptName
-LeafCmd == IF ValDesc.t = "mv" THEN [c |-> "write", v |-> 1]
-           ELSE IF ValDesc.t = "or" THEN [c |-> "add", m |-> 1]
-           ELSE [c |-> "up", k |-> 1, sub |-> IF ValDesc.of.t = "mv" THEN [c |-> "write", v |-> 1] ELSE [c |-> "add", m |-> 1]]
+RECURSIVE FirstCmd(_)
+FirstCmd(d) == IF d.t = "mv" THEN [c |-> "write", v |-> 1]
+               ELSE IF d.t = "or" THEN [c |-> "add", m |-> 1]
+               ELSE [c |-> "up", k |-> 1, sub |-> FirstCmd(d.of)]
+LeafCmd == FirstCmd(ValDesc)
 Up(k) == [c |-> "up", k |-> k, sub |-> LeafCmd]
 Script ==
   CASE ScriptName = "none" -> <<>>
